@@ -109,7 +109,8 @@ def r15_1(prog, out):
             pop_bbs = {e.bb for e in effs}
             pushes = [bb for bb, t in bi.calls(lambda c: c.path == "std::vec::Vec::<T, A>::push")
                       if any(set(bi.cfg.in_loop(bb)) & set(bi.cfg.in_loop(pb)) for pb in pop_bbs)]
-        if not pushes:
+        lazy0 = [e for e in effs if e.chain and prog.facts.body(e.chain[0][0]) is not None and prog.facts.body(e.chain[0][0]).kind == "Closure"]
+        if not pushes and not lazy0:
             raise CheckBroken("no push of a delivery / popped message in the pop loop of %s" % name)
         # comparisons len(result) >= cap
         cmps = []
@@ -275,12 +276,22 @@ def r15_3(prog, out):
                     good.add((sw, fa))
                     why.append("non-empty")
         ri_cell = ("crate::pubsub_proto::PullRequest", "return_immediately")
+
+        def is_ri(place, bi=bi, bid=bid):
+            o = prog.receiver_origin(bi, place)
+            if ri_cell in o.cells() and o.cells()[-1] == ri_cell:
+                return True
+            if o.kind == "upvar" and (bi.body.place_ty(place) or "") == "bool":
+                # read once in the enclosing body and captured by the loop's future
+                s0 = Slicer(prog).of_resolved(bid, place)
+                return s0.fields == {ri_cell} or (ri_cell in s0.fields and all(f2[0].startswith("crate::pubsub_proto::PullRequest") or f2[0].startswith("tonic::") for f2 in s0.fields))
+            return False
         for blk in bi.body.blocks:
             if blk.cleanup:
                 continue
             for st in blk.stmts:
                 if st.k == "assign" and st.lhs.is_local() and st.rv.k == "use" and st.rv.ops[0].place is not None \
-                        and ri_cell in prog.receiver_origin(bi, st.rv.ops[0].place).cells() and prog.receiver_origin(bi, st.rv.ops[0].place).cells()[-1] == ri_cell:
+                        and is_ri(st.rv.ops[0].place):
                     for sw, tr, fa in _bool_switches(bi, st.lhs.local):
                         good.add((sw, tr))
                         why.append("return_immediately")
@@ -295,10 +306,15 @@ def r15_3(prog, out):
             continue
         if bb not in free:
             out.holds(key, bi.loc(bb), "built only after one of: %s" % ", ".join(sorted(set(why))))
+            continue
+        # the decision may be recorded first (an enum `Respond(batch) | Wait`, a flag) and acted on later: follow constants
+        labels = const_walk(bi, 0, lambda x: "response" if x == bb else None, max_steps=40000, blocked_edges=set(good))
+        if "response" not in labels and "unknown" not in labels:
+            out.holds(key, bi.loc(bb), "built only after one of: %s (the decision is carried in a value; followed by constant propagation)" % ", ".join(sorted(set(why))))
         else:
             out.violation(key, bi.loc(bb), "a Pull response can be returned here although it may be empty, return_immediately is not set and the server-side timer has not fired")
-    if n < 2:
-        raise CheckBroken("expected >= 2 PullResponse constructions in the pull flow, found %d" % n)
+    if n < 1:
+        raise CheckBroken("no PullResponse construction in the pull flow")
     # the non-empty answer is given before any wait
     loops = [cl for cl in find_consumer_loops(prog) if cl.body.startswith(h.wrapper)]
     for cl in loops:
